@@ -2325,6 +2325,8 @@ class Executor:
             raise Unsupported('nested comprehension')
         g = n.generators[0]
         seq = self.ev(g.iter)
+        if isinstance(seq, Obj) and '__iter__' in seq.methods:
+            seq = seq.methods['__iter__'](self, seq)          # a model object that lists its members
         items = seq.items if isinstance(seq, Tup) else (list(seq) if isinstance(seq, (tuple, list)) else None)
         if items is None:
             raise Unsupported('comprehension over symbolic sequence')
